@@ -5,6 +5,7 @@ use std::rc::Rc;
 //@@EXTRACT macro_predicate@@
 verus! {
 //@@SPEC vocab.rs@@
+//@@SPEC std_saturating.rs@@
 //@@SPEC contracts/integer_variable_consumer.rs@@
 //@@SPEC prop_ctx.rs@@
 //@@SPEC prop_ctx_stateful.rs@@
